@@ -57,7 +57,10 @@ impl OverlappingState {
 //@@ end
 }
 
+// C19: ghost counter of next_state calls within one call of the stepper
 //@@ fn src/automaton.rs | fn try_find_overlapping_fwd_imp<A: Automaton + ?Sized>(
+//@@ sub 1 /sid = aut\.next_state\(/ => proof { steps = steps + 1; } sid = aut.next_state(
+//@@ sub 1 /while state\.at < input\.end\(\) \{/ => let ghost mut steps: int = 0; let ghost at0: int = state.at as int; while state.at < input.end() {
 //@@ header
     requires
         aut_wf(aut), input.wf(), input.span.start <= input.span.end,
@@ -71,6 +74,7 @@ impl OverlappingState {
         invariant
             aut_wf(aut), input.wf(), input.span.start <= state.at <= input.span.end,
             aut.kind_s() is Standard,
+            steps <= state.at - at0, // [C19] one transition per byte consumed by this call
             pre is Some ==> input.anchored is No && aut.has_pre() && *(pre->Some_0) == aut.pre_s(),
             aut.valid_s(sid),
             aut.dead_s(sid) || aut.depth_s(sid) <= state.at - input.span.start,
